@@ -296,6 +296,20 @@ export async function run(ctx) {
     }
   };
   for await (const item of corpus(ctx, { label: "C03", count: nProgs, features: FEATURES })) await judgeItem(item);
+  // very large containers (mostly of wrong items): the three entry points still agree and none throws
+  if (ctx.shard === 2 % ctx.of) {
+    const { bulkValues, BULK_PROGRAM } = await import("../gen/valgen.mjs");
+    const r = await compileText(ctx, BULK_PROGRAM);
+    if (!r.parsers) throw new Error("C03 bulk program does not compile");
+    for (const [vn, v] of bulkValues())
+      for (const [pn, parser] of Object.entries(r.parsers)) {
+        const o = OPTION_SETS[(vn.length + pn.charCodeAt(0)) % 4];
+        const f = checkTriple(parser, pn, v, o, null, null);
+        ctx.judged();
+        ctx.count("bulk_judged");
+        if (f) ctx.violation({ signature: `${f.clause}|bulk:${pn}:${vn}|${optKey(o)}`, clause: f.clause, detail: `${f.detail} :: parser ${pn} of the bulk program on ${vn}`, replay: { kind: "bulk", parser: pn, value: vn, options: o } });
+      }
+  }
   // grid: every kind of leaf as a property that two members of an intersection / a union both declare
   // (the projections of the members have to be merged without losing the leaf's kind or content)
   {
@@ -369,6 +383,13 @@ export async function run(ctx) {
 }
 
 export async function replay(ctx, c) {
+  if (c.kind === "bulk") {
+    const { bulkValues, BULK_PROGRAM } = await import("../gen/valgen.mjs");
+    const r0 = await compileText(ctx, BULK_PROGRAM);
+    const v0 = bulkValues().find(([n]) => n === c.value)[1];
+    const f0 = checkTriple(r0.parsers[c.parser], c.parser, v0, c.options ?? {}, null, null);
+    return { violated: !!f0, fault: f0, value: c.value };
+  }
   if (c.kind === "adhoc") return { violated: false, note: "ad-hoc validators are rebuilt from the seed; replay by re-running the shard", describe: c.describe };
   const r = await compileText(ctx, c.text);
   if (!r.parsers) return { violated: true, note: "does not compile", outcome: r.res.outcome };
